@@ -865,6 +865,19 @@ impl endpoint::Session for Session {
                 dispositions.push(disposition);
                 prev_ind = ind;
             }
+
+            // The indices only mark where a new run of consecutive ids starts, so the
+            // last run (the only one if all ids are consecutive) is still pending
+            if let Some(slice) = delivery_ids.get(prev_ind..).filter(|s| !s.is_empty()) {
+                dispositions.push(Disposition {
+                    role: Role::Sender,
+                    first: slice[0],
+                    last: slice.last().copied(),
+                    settled: true,
+                    state: disposition.state.clone(),
+                    batchable: false,
+                });
+            }
             Ok(Some(dispositions))
         }
     }
